@@ -153,6 +153,13 @@ fn decode_stream(b: &[u8], name: &str) -> (Vec<Vec<i64>>, bool, bool) {
                 if !(nm == "m1" || nm == "m2") || meta_seen.contains(&nm) {
                     intact = false;
                 }
+                // ... and carry what was known about it when the client connected: the latest unit / description
+                let unit = inner.iter().find(|f| f.0 == 3).map(|f| String::from_utf8_lossy(&f.3).to_string());
+                let desc = inner.iter().find(|f| f.0 == 4).map(|f| String::from_utf8_lossy(&f.3).to_string());
+                let want: (Option<&str>, Option<&str>) = if nm == "m1" { (None, Some("d1")) } else { (Some("bytes"), Some("d2")) };
+                if (unit.as_deref(), desc.as_deref()) != want {
+                    intact = false;
+                }
                 meta_seen.push(nm);
                 out.push(vec![-(meta_seen.len() as i64), 1]);
             }
@@ -294,10 +301,14 @@ fn run_wake(rng: &mut rand::rngs::StdRng, trials: usize) -> (Vec<Value>, i64, i6
         std::mem::forget(recorder);
         return (ev, 0, 0);
     }
-    recorder.describe_counter("m1".into(), None, "d1".into());
+    // "m1" is described twice before any client connects: the metadata known at connect time is the latest description
+    // (unit and description of the first one must not survive; seeded change C11-metadata_encoded_once)
+    recorder.describe_counter("m1".into(), Some(Unit::Count), "d0".into());
     wait_for(|g| g.iter().filter(|e| e.0 == "tcp.rx.meta.post").count() >= 1, 3);
-    recorder.describe_gauge("m2".into(), Some(Unit::Bytes), "d2".into());
+    recorder.describe_counter("m1".into(), None, "d1".into());
     wait_for(|g| g.iter().filter(|e| e.0 == "tcp.rx.meta.post").count() >= 2, 3);
+    recorder.describe_gauge("m2".into(), Some(Unit::Bytes), "d2".into());
+    wait_for(|g| g.iter().filter(|e| e.0 == "tcp.rx.meta.post").count() >= 3, 3);
     let name = "c".to_string();
     let key = Key::from_parts(name.clone(), vec![Label::new("l", "v")]);
     let counter = recorder.register_counter(&key, &Metadata::new("t", Level::INFO, None));
@@ -398,10 +409,14 @@ fn run(rng: &mut rand::rngs::StdRng, buffer: Option<usize>, fatn: usize) -> Vec<
         return ev;
     }
     // one at a time: a description is only try_send'ed, so with a tiny channel a burst of them would be dropped
-    recorder.describe_counter("m1".into(), None, "d1".into());
+    // "m1" is described twice before any client connects: the metadata known at connect time is the latest description
+    // (unit and description of the first one must not survive; seeded change C11-metadata_encoded_once)
+    recorder.describe_counter("m1".into(), Some(Unit::Count), "d0".into());
     wait_for(|g| g.iter().filter(|e| e.0 == "tcp.rx.meta.post").count() >= 1, 3);
-    recorder.describe_gauge("m2".into(), Some(Unit::Bytes), "d2".into());
+    recorder.describe_counter("m1".into(), None, "d1".into());
     wait_for(|g| g.iter().filter(|e| e.0 == "tcp.rx.meta.post").count() >= 2, 3);
+    recorder.describe_gauge("m2".into(), Some(Unit::Bytes), "d2".into());
+    wait_for(|g| g.iter().filter(|e| e.0 == "tcp.rx.meta.post").count() >= 3, 3);
     let name: String = if huge { "n".repeat(6 << 20) } else if fat { "n".repeat(16 * 1024) } else { "c".to_string() };
     let key = Key::from_parts(name.clone(), vec![Label::new("l", "v")]);
     let counter = recorder.register_counter(&key, &Metadata::new("t", Level::INFO, None));
